@@ -120,6 +120,24 @@ def generate(R: Draw, tier: str) -> dict:
                 b = R.int(a, hi)
                 c = R.int(lo, b)
                 d = R.int(max(c, a), hi)
+        if R.bool(0.15):
+            # each range ends at the depth it starts at, the two depths differ, the ranges overlap: their union starts
+            # and ends at different depths (a range from inside a paragraph to a position between blocks)
+            for _ in range(6):
+                a0 = R.int(0, n)
+                bs = [p for p in range(a0 + 1, min(n, a0 + 14) + 1) if dd[p] == dd[a0]]
+                if not bs:
+                    continue
+                b0 = R.choice(bs)
+                cs = [p for p in range(a0 + 1, b0 + 1) if dd[p] != dd[a0]]
+                if not cs:
+                    continue
+                c0 = R.choice(cs)
+                ds = [p for p in range(b0, min(n, b0 + 14) + 1) if dd[p] == dd[c0]]
+                if ds:
+                    a, b, c, d = a0, b0, c0, R.choice(ds)
+                    m2 = m1
+                    break
         k1 = R.choice(["addMark", "removeMark"])
         k2 = k1 if R.bool(0.8) else R.choice(["addMark", "removeMark"])
         if m2 != m1 and m2[0] == m1[0] and R.bool(0.7):
